@@ -83,8 +83,8 @@ func c06Char(c *core.Ctx, r ref.CharRecipe) {
 	c.Count("executions", st.Leaves)
 	c.Count("nodes", st.Nodes)
 	c.Count("edges", st.Edges)
-	if st.Capped || st.TooWide || st.Uncalibrated {
-		c.Incomplete("cell of %v not decided (capped/uncalibrated)", lit)
+	if st.Capped || st.TooWide || st.Uncalibrated || st.Unannounced > 0 {
+		c.Incomplete("cell of %v not decided (capped/uncalibrated/raw reads)", lit)
 		return
 	}
 	install(tape.New(&tape.Script{}))
@@ -100,7 +100,7 @@ func c06Char(c *core.Ctx, r ref.CharRecipe) {
 		st2 := exploreCell(sr.Generate, CellOpt{DepthCut: attempts * r.Length, Fallback: uint32(len(ab)), MaxMenu: 4096, MaxLeaves: 100000, Dev: -1, Chunk: 1}, func(l *Leaf) { d2.add(l) })
 		c.Count("executions", st2.Leaves)
 		c.Count("chunked_source_cells", 1)
-		if !(st2.Capped || st2.TooWide || st2.Uncalibrated) {
+		if !(st2.Capped || st2.TooWide || st2.Uncalibrated || st2.Unannounced > 0) {
 			c06Judge(c, key+" [1-byte reads]", rp, H, d2, "character recipe, source delivering one byte per read")
 		}
 	}
@@ -126,8 +126,8 @@ func c06WL(c *core.Ctx, w WLCase, maxLeaves int64) {
 	c.Count("executions", st.Leaves)
 	c.Count("nodes", st.Nodes)
 	c.Count("edges", st.Edges)
-	if st.Capped || st.TooWide || st.Uncalibrated || d.CutMass.Sign() != 0 {
-		c.Incomplete("cell of %s not decided (capped/uncalibrated/cut)", mustJSON(w))
+	if st.Capped || st.TooWide || st.Uncalibrated || d.CutMass.Sign() != 0 || st.Unannounced > 0 {
+		c.Incomplete("cell of %s not decided (capped/uncalibrated/cut/raw reads)", mustJSON(w))
 		return
 	}
 	// Entropy() executes the separator function: give it a tape, twice
@@ -156,7 +156,7 @@ func c06WL(c *core.Ctx, w WLCase, maxLeaves int64) {
 		st2 := exploreCell(r.Generate, CellOpt{DepthCut: 64, Fallback: 2, MaxMenu: 20000, MaxLeaves: maxLeaves, Dev: -1, Chunk: 1}, func(l *Leaf) { d2.add(l) })
 		c.Count("executions", st2.Leaves)
 		c.Count("chunked_source_cells", 1)
-		if !(st2.Capped || st2.TooWide || st2.Uncalibrated || d2.CutMass.Sign() != 0) {
+		if !(st2.Capped || st2.TooWide || st2.Uncalibrated || d2.CutMass.Sign() != 0 || st2.Unannounced > 0) {
 			c06Judge(c, key+" [1-byte reads]", rp, H, d2, "wordlist recipe, source delivering one byte per read")
 		}
 	}
